@@ -247,7 +247,12 @@ def line_starts(b):
 def ref_tree(source, mode="m", ranges=False):
     """canonical reference tree; `source` is a str.  Raises SyntaxError/ValueError when CPython rejects."""
     pm = "eval" if mode == "e" else "exec"
-    tree = ast.parse(source, mode=pm)
+    if source[:1] == "\ufeff":
+        # CPython only skips a BOM in *bytes* input (a str starting with U+FEFF is rejected as a
+        # non-printable character); files are bytes, so the reference for BOM texts is the bytes parse
+        tree = ast.parse(source.encode("utf-8"), mode=pm)
+    else:
+        tree = ast.parse(source, mode=pm)
     d = Dumper(source.encode("utf-8", "surrogatepass") if ranges else None, ranges)
     s = d.node(tree)
     if mode == "i":
